@@ -33,6 +33,14 @@ func (famSanitize) Gen(r *rand.Rand, n int, _ map[string]string) []any {
 		if r.Intn(4) == 0 {
 			ln = 1 + r.Intn(64)
 		}
+		if r.Intn(5) == 0 {
+			// ASCII keys at the lengths where a fixed scratch buffer would end, digit-leading or not
+			ln = []int{15, 16, 17, 31, 32, 33, 63, 64, 65, 127, 128, 129, 255, 256, 257}[r.Intn(15)]
+			k = pick(r, []string{"7", "a", "_", "0"})
+			for len(k) < ln {
+				k += pick(r, []string{"a", "b", ".", "-", "_", "9", "Z"})
+			}
+		}
 		for len(k) < ln {
 			if r.Intn(5) == 0 {
 				k += string([]byte{byte(r.Intn(256))})
